@@ -22,10 +22,8 @@ type recorder struct {
 	depth int
 }
 
-var recStack []*recorder
-
-func noteMod(key string) {
-	for _, r := range recStack {
+func (st *State) noteMod(key string) {
+	for _, r := range st.x.recStack {
 		r.mods[key] = true
 	}
 }
@@ -441,7 +439,10 @@ func (st *State) storeTyped(addr V, val V, t types.Type) {
 			st.storeN(space, a, vs[i].T, l.W/8)
 		}
 	}
-	noteMod(space)
+	st.noteMod(space)
+	if space == "H" {
+		st.noteMod("H:store")
+	}
 }
 
 // newByteRegion creates a fresh byte region (its own memory space) of n bytes
@@ -459,7 +460,7 @@ func (st *State) newByteRegion(n string, byteAt func(s *State, k string) string)
 	base := &MemVer{kind: mBase, term: "zeromem"}
 	name := st.newMemName("MBr")
 	st.mem[space] = &MemVer{kind: mWrite, term: name, base: base, at: addr, n: n, byteAt: byteAt}
-	noteMod("B+")
+	st.noteMod("B+")
 	return vPtr(addr, &Prov{Space: space, Region: fmt.Sprintf("fresh#%d", st.regions)})
 }
 
@@ -499,7 +500,7 @@ func (st *State) materialize(val V, t types.Type) {
 		snap.facts(s, bvadd(p.T, k))
 		return app("select", snap.term, bvadd(p.T, k))
 	})
-	noteMod("B+")
+	st.noteMod("B+")
 }
 
 // alloc creates a fresh zeroed object.
@@ -523,7 +524,7 @@ func (st *State) allocFresh(space string, nbytes string, zero bool) V {
 	if zero {
 		st.writeSeq(space, addr, nbytes, func(*State, string) string { return bvLit(0, 8) })
 	}
-	noteMod(space + "+")
+	st.noteMod(space + "+")
 	return p
 }
 
@@ -570,8 +571,8 @@ func (x *Exec) runFunc(st *State, fn *ssa.Function, args []V, bindings []V) []Ou
 
 func (x *Exec) runBlock(st *State, b *ssa.BasicBlock, prev *ssa.BasicBlock) []Outcome {
 	fr := st.top()
-	for i := len(recStack) - 1; i >= 0; i-- {
-		r := recStack[i]
+	for i := len(x.recStack) - 1; i >= 0; i-- {
+		r := x.recStack[i]
 		if r.fn == fr.fn && r.depth == fr.depth && !r.body[b] {
 			return nil // dry run left the loop
 		}
@@ -727,11 +728,11 @@ func (x *Exec) checkLoop(st *State, fr *Frame, ld *loopDesc, spec *LoopSpec, ent
 func (x *Exec) cutLoop(st *State, fr *Frame, ld *loopDesc, spec *LoopSpec, phis []*ssa.Phi) {
 	// dry run to learn which memories the body modifies
 	rec := &recorder{body: ld.body, mods: map[string]bool{}, fn: fr.fn, depth: fr.depth}
-	recStack = append(recStack, rec)
+	x.recStack = append(x.recStack, rec)
 	x.recording++
 	func() {
 		defer func() {
-			recStack = recStack[:len(recStack)-1]
+			x.recStack = x.recStack[:len(x.recStack)-1]
 			x.recording--
 		}()
 		dry := st.fork()
@@ -809,6 +810,16 @@ func (x *Exec) havocLoop(st *State, fr *Frame, ld *loopDesc, phis []*ssa.Phi, mo
 		old := st.env[phi]
 		nv := st.symbolic(phi.Type(), "loop_"+phi.Comment, nil, false)
 		copyProv(&nv, old)
+		{
+			var nl, ol []V
+			leaves(nv, &nl)
+			leaves(old, &ol)
+			for i := range nl {
+				if i < len(ol) && nl[i].K != KFunc && ol[i].K == nl[i].K {
+					st.loopInits = append(st.loopInits, [2]string{nl[i].T, ol[i].T})
+				}
+			}
+		}
 		st.env[phi] = nv
 	}
 	all := mods["*"]
@@ -816,7 +827,11 @@ func (x *Exec) havocLoop(st *State, fr *Frame, ld *loopDesc, phis []*ssa.Phi, mo
 		switch {
 		case space == "H":
 			if all || mods["H"] {
-				st.havoc("H", func(a string) string { return app("ismeta", a) })
+				keep := x.heapKeep(st)
+				if mods["H:store"] || all {
+					keep = func(a string) string { return app("ismeta", a) }
+				}
+				st.havoc("H", keep)
 			} else if mods["H+"] {
 				brk := st.brk["H"]
 				st.havoc("H", func(a string) string { return app("bvult", a, brk) })
